@@ -23,6 +23,8 @@ func main() {
 		cmdLemmas(os.Args[2:])
 	case "sweep":
 		cmdSweep(os.Args[2:])
+	case "hints":
+		cmdHints(os.Args[2:])
 	default:
 		fmt.Fprintln(os.Stderr, "unknown command", os.Args[1])
 		os.Exit(2)
@@ -45,6 +47,7 @@ func setup(repo, specDir string) (*Verifier, error) {
 	if err := lib.build(); err != nil {
 		return nil, err
 	}
+	loadHints(specDir)
 	v := newVerifier(prog, lib)
 	debugf("setup %.1fs", time.Since(t0).Seconds())
 	return v, nil
